@@ -128,3 +128,20 @@ Definition check_nullstr_dg (k : ncodec) (bs : bytes) (ex : option (list (N * N)
   | Some (l, r), Some (l', n) => dgs_eqb l l' && (len r =? n)
   | _, _ => false
   end.
+
+(** VPK.__delitem__ on the nested dicts (SM/VpkNested.v): which deletes succeed and the key structure left, in dict order. *)
+From SV Require Import SM.VpkNested.
+Definition shape_t := list (bytes * list (bytes * list bytes)).
+Definition tree_shape (t : tree) : shape_t := map (fun e => (fst e, map (fun d => (fst d, map fst (snd d))) (snd e))) t.
+Definition shape_tree (s : shape_t) : tree :=
+  map (fun e => (fst e, map (fun d => (fst d, map (fun n => (n, mkInfo 0 [] None 0 0)) (snd d))) (snd e))) s.
+Fixpoint blist_eqb' (a b : list bytes) : bool :=
+  match a, b with [], [] => true | x :: a', y :: b' => bytes_eqb x y && blist_eqb' a' b' | _, _ => false end.
+Fixpoint dshape_eqb (a b : list (bytes * list bytes)) : bool :=
+  match a, b with [], [] => true | (x, l) :: a', (y, m) :: b' => bytes_eqb x y && blist_eqb' l m && dshape_eqb a' b' | _, _ => false end.
+Fixpoint shape_eqb (a b : shape_t) : bool :=
+  match a, b with [], [] => true | (x, l) :: a', (y, m) :: b' => bytes_eqb x y && dshape_eqb l m && shape_eqb a' b' | _, _ => false end.
+Fixpoint bools_eqb (a b : list bool) : bool :=
+  match a, b with [], [] => true | x :: a', y :: b' => Bool.eqb x y && bools_eqb a' b' | _, _ => false end.
+Definition check_ndel (prog : dprog) (s : shape_t) (ks : list key) (oks : list bool) (after : shape_t) : bool :=
+  let '(l, t) := ndel_all prog (shape_tree s) ks in bools_eqb l oks && shape_eqb (tree_shape t) after.
